@@ -65,7 +65,7 @@ impl Prop for C06 {
       Err(p) => return Outcome::violated("run-panic", format!("program\n{}\nrun_program panicked: {}", src, p)),
     };
     let cb = match guarded(|| canon(&rb)) { Ok(c) => c, Err(p) => return Outcome::violated("run-result-unreadable", p) };
-    if ca != cb { let cls = if case.cell.contains("trailing-reference") { "result-differs:trailing-reference" } else { "result-differs" }; return Outcome::violated(cls, format!("program\n{}\ninterpreter: {}\nbytecode:    {}", src, ca.show(), cb.show())); }
+    if ca != cb { let cls = if case.cell.contains("trailing-reference") { "result-differs:trailing-reference" } else if case.cell.contains("final-literal") { "result-differs:final-literal" } else { "result-differs" }; return Outcome::violated(cls, format!("program\n{}\ninterpreter: {}\nbytecode:    {}", src, ca.show(), cb.show())); }
     Outcome::held().num("bytes", bytes.len() as f64).num("instrs", prog.instrs.len() as f64)
   }
 }
